@@ -2,7 +2,7 @@
 From Coq Require Import ZArith Bool List Lia.
 From AxV Require Import Bits Outcome Codes Iced State Rt Mem Trace BitsP ByteStore MemP RegFile RegsP ISA CodeSem ReadonlyTac
   OperandP FlagsP CfP MovP RmP AluP MovxP StackP CallRetP Div32P MulP.
-From AxG Require Import Flags Regs Operand Helpers I_push.
+From AxG Require Import Flags Regs Operand Helpers I_push I_pop.
 Local Open Scope Z_scope.
 
 (* PUSH r/m16: the 16-bit register or the two bytes at the operand's address are pushed *)
@@ -30,4 +30,14 @@ Proof.
   - right. rewrite W. split; [reflexivity|]. exists e.
     assert (E' : mem_write_16 (regs s RSP) v s = (Err e, s)) by (rewrite typed_write_16_is_le by exact Rv; exact W).
     unfold bind. rewrite E'. reflexivity.
+Qed.
+
+(* PUSH r32 / POP r32 do not exist in 64-bit mode (the decoder never produces them); the emulator's arms return
+   a fatal error value and change nothing *)
+Theorem push_pop_r32_rejected c i s :
+  (i_code i = C_Push_r32 -> instr_push_r32 c i s = (Err EFatal, s)) /\
+  (i_code i = C_Pop_r32 -> instr_pop_r32 c i s = (Err EFatal, s)).
+Proof.
+  split; intros Ec; [unfold instr_push_r32|unfold instr_pop_r32]; rewrite Ec;
+    rewrite (bind_ok _ _ _ _ _ (dbg_code_ok c s _ eq_refl)); reflexivity.
 Qed.
